@@ -133,10 +133,12 @@ class Handshake:
             status_code = 101
 
         for name, value in additional_headers:
-            if b"sec-websocket-protocol" == name or name.startswith(b":"):
-                raise Exception(f"Invalid additional header, {name.decode()}")
+            # Checked on the name as it would be sent (stripped)
+            validated_name = validate_header_part(name)
+            if b"sec-websocket-protocol" == validated_name or validated_name[:1] in {b"", b":"}:
+                raise Exception(f"Invalid additional header, {validated_name.decode()}")
 
-            headers.append((validate_header_part(name), validate_header_part(value)))
+            headers.append((validated_name, validate_header_part(value)))
 
         self.accepted = True
         return status_code, headers, Connection(ConnectionType.SERVER, extensions)
